@@ -7,5 +7,7 @@ EXTENDS Malformed, Json
 QuickReqTokens == {"R1", "R0", "Rneg", "S", "S0", "Sneg", "Sbad"}
 NegReqTokens   == {"R1", "R0", "S"}
 
+NegLongArgs    == { <<12, 5, 2>> }      \* the negative controls need no 400-line file
+
 Export == Done => PrintT(<<"VERIF", ToJson([c |-> cs, res |-> st.res, out |-> st.out])>>)
 =============================================================================
